@@ -194,8 +194,10 @@ pub fn generate(seed: u64, n: usize, _thorough: bool, _corpus: Option<&str>) -> 
         out.extend(history_cases(&mut r));
         out.push(pipe_case(&mut r));
         if i % 2 == 0 { out.push(data_doors(&mut r)); }
-        if i % 4 == 1 { out.push(gap_doors(&mut r)); }
     }
+    // fixed-size blocks with their OWN generators (independent of how much randomness the streams above consume)
+    let mut rg = Rng::new(seed ^ 0x6a9d_0055_u64).fork();
+    for k in 0..(if n >= 2000 { n / 16 } else { GAP_BLOCK }) { out.push(gap_doors(&mut rg, k)); }
     out
 }
 
@@ -1062,26 +1064,37 @@ fn data_doors(r: &mut Rng) -> Case {
 // RELATIVE to the objective (large base values + small bonuses, a cardinality limit, pairwise conflicts: a fractional root
 // LP, so that an early incumbent is not optimal).
 
-fn gap_doors(r: &mut Rng) -> Case {
+const GAP_BLOCK: usize = 120;
+
+fn gap_doors(r: &mut Rng, k_index: usize) -> Case {
     use rooc::Microlp;
-    let n = 4 + r.below(4);
-    let base = *r.pick(&[1000000.0, 250000.0, 5000000.0]);
-    let values: Vec<f64> = (0..n).map(|_| base + r.range(1, 30) as f64).collect();
-    let k = 2 + r.below(n - 2);
-    let mut conflicts: Vec<(usize, usize)> = vec![];
-    if n >= 5 && r.chance(2, 3) { conflicts.extend([(0, 2), (0, 4), (2, 4)]); }
-    for _ in 0..1 + r.below(3) { let a = r.below(n); let b = r.below(n); if a != b && !conflicts.contains(&(a.min(b), a.max(b))) { conflicts.push((a.min(b), a.max(b))); } }
+    // families (rotating): 0 = the five-item shape (cardinality 3, conflict triangle 0-2-4), 1 = 6-8 items, triangle + pairs,
+    // 2 = a weight row instead of the cardinality row (knapsack), 3 = two triangles
+    let family = k_index % 4;
+    let n = match family { 0 => 5, 1 => 6 + r.below(3), 2 => 5 + r.below(3), _ => 7 + r.below(2) };
+    let base = *r.pick(&[1000000.0, 2000000.0, 5000000.0, 10000000.0]);
+    // small DISTINCT bonuses
+    let mut bonus: Vec<i64> = vec![];
+    while bonus.len() < n { let b = r.range(1, 40); if !bonus.contains(&b) { bonus.push(b); } }
+    let values: Vec<f64> = bonus.iter().map(|b| base + *b as f64).collect();
+    let k = match family { 0 => 3, _ => 2 + r.below(n - 3) };
+    let mut conflicts: Vec<(usize, usize)> = vec![(0, 2), (0, 4), (2, 4)];
+    if family == 3 { conflicts.extend([(1, 3), (1, 5), (3, 5)]); }
+    if family != 0 { for _ in 0..r.below(3) { let a = r.below(n); let b = r.below(n); if a != b && !conflicts.contains(&(a.min(b), a.max(b))) { conflicts.push((a.min(b), a.max(b))); } } }
+    let weights: Vec<i64> = (0..n).map(|_| r.range(2, 5)).collect();
+    let wcap = weights.iter().sum::<i64>() / 2;
     let build = || -> (ModelBuilder, Vec<Var>) {
         let mut b = ModelBuilder::new();
         let x = b.add_vars("x", n, VariableType::Boolean);
         let mut b = b.maximize(rooc::builder::sum(x.iter().zip(&values).map(|(xi, v)| *v * *xi)));
-        b = b.with(BuilderConstraint::new(rooc::builder::sum(x.iter().map(|v| Expr::from(*v))), Comparison::LessOrEqual, Expr::from(k as f64), "card".into()));
+        if family == 2 { b = b.with(BuilderConstraint::new(rooc::builder::sum(x.iter().zip(&weights).map(|(v, w)| (*w as f64) * *v)), Comparison::LessOrEqual, Expr::from(wcap as f64), "card".into())); }
+        else { b = b.with(BuilderConstraint::new(rooc::builder::sum(x.iter().map(|v| Expr::from(*v))), Comparison::LessOrEqual, Expr::from(k as f64), "card".into())); }
         for (a, c) in &conflicts { b = b.with(BuilderConstraint::new(x[*a] + x[*c], Comparison::LessOrEqual, Expr::from(1.0), String::new())); }
         (b, x)
     };
     let text = format!("max {}\ns.t.\n    card: {} <= {}\n{}define\n    {} as Boolean",
         (0..n).map(|i| format!("{} * x_{}", values[i] as i64, i)).collect::<Vec<_>>().join(" + "),
-        (0..n).map(|i| format!("x_{}", i)).collect::<Vec<_>>().join(" + "), k,
+        if family == 2 { (0..n).map(|i| format!("{} * x_{}", weights[i], i)).collect::<Vec<_>>().join(" + ") } else { (0..n).map(|i| format!("x_{}", i)).collect::<Vec<_>>().join(" + ") }, if family == 2 { wcap as usize } else { k },
         conflicts.iter().map(|(a, c)| format!("    x_{} + x_{} <= 1\n", a, c)).collect::<String>(),
         (0..n).map(|i| format!("x_{}", i)).collect::<Vec<_>>().join(", "));
     let run = |f: &mut dyn FnMut() -> Result<f64, String>| -> Result<f64, String> { std::panic::catch_unwind(std::panic::AssertUnwindSafe(|| f())).unwrap_or(Err("(panic)".into())) };
@@ -1098,7 +1111,7 @@ fn gap_doors(r: &mut Rng) -> Case {
     let mut c = Case::default();
     c.show = text.replace('\n', " ; ");
     c.imp = format!("(gap-doors (microlp-default {:?}) (microlp-gap0 {:?}) (auto {:?}) (text-milp {:?}))", o_default, o_exact, o_auto, o_text);
-    c.tags = vec!["gap-doors".into()];
+    c.tags = vec!["gap-doors".into(), format!("gap-family-{}", family)];
     c.nontrivial = o_default.is_ok();
     let all = [&o_default, &o_exact, &o_auto, &o_text];
     match &o_text {
